@@ -123,6 +123,7 @@ fn indexed2(compressed: bool) {
 #[kani::unwind(8)]
 #[kani::stub(alloc::fmt::format, crate::vklib::empty_format)]
 #[kani::stub(std::collections::HashMap::insert, crate::vklib::hm_insert)]
+#[kani::stub(std::collections::HashMap::with_hasher, crate::vklib::hm_with_hasher)]
 #[kani::stub(crate::palette::ColorPalette::color, crate::vklib::side_color)]
 #[kani::stub(std::collections::HashMap::len, crate::vklib::hm_len)]
 fn c06_q_indexed_raw() {
@@ -134,6 +135,7 @@ fn c06_q_indexed_raw() {
 #[kani::stub(crate::reader::AseReader::unzip, crate::vklib::stub_unzip_identity)]
 #[kani::stub(crate::vklib::stubs_probe, crate::vklib::stubs_probe_stubbed)]
 #[kani::stub(std::collections::HashMap::insert, crate::vklib::hm_insert)]
+#[kani::stub(std::collections::HashMap::with_hasher, crate::vklib::hm_with_hasher)]
 #[kani::stub(crate::palette::ColorPalette::color, crate::vklib::side_color)]
 #[kani::stub(std::collections::HashMap::len, crate::vklib::hm_len)]
 fn c06_t_indexed_compressed() {
